@@ -74,6 +74,10 @@ def population(rng):
             h, w = rng.randint(1, 11), rng.randint(1, 8)
             if h * w <= 64:
                 break
+        if rng.random() < 0.12:
+            # more cells than one tile message is meant for: the repository
+            # still sends the whole matrix in one message ("any height/width")
+            h, w = rng.choice([(12, 8), (10, 10), (13, 5), (16, 8), (9, 8)])
         descs.append({'label': lb, 'group': 'Pole', 'location': 'Home',
                       'kind': 'matrix', 'height': h, 'width': w,
                       'color': [1, 2, 3, 3500], 'power': 0})
